@@ -341,7 +341,11 @@ def chunk_boundaries(ctx):
                         if st != "ok":
                             ctx.violation(f"large document ({placement}, {h}, {src}): {type(obj).__name__}: {obj}", info)
                             continue
-                        got = infoset.canon(infoset.parse(rb.render(obj, xctx, "native")), strip_ws_between_children=False)["content"]
+                        try:
+                            got = infoset.canon(infoset.parse(rb.render(obj, xctx, "native")), strip_ws_between_children=False)["content"]
+                        except Exception as ex:  # noqa: BLE001
+                            ctx.violation(f"large document ({placement}, {h}, {src}): writing the parsed object / re-reading it failed: {type(ex).__name__}: {ex}", info)
+                            continue
                         if got != want:
                             ctx.violation(f"large document ({placement}, {h} handler, {src} source): end tag of <a> at byte {size + off}: the text after it comes back as "
                                           f"{[c for c in got if isinstance(c, str)]!r}, the document says {[c for c in want if isinstance(c, str)]!r}", info)
